@@ -1,5 +1,6 @@
 import Goyang.Lemmas.BridgeForest
 import Goyang.Lemmas.BridgeRegistry
+import Goyang.Lemmas.BridgeLoad
 import Goyang.Props.C17
 import Goyang.Props.C04
 /-
@@ -68,6 +69,12 @@ theorem wfForest_processAll_loaded (ss : List Stmt) (opts : Opts) (plug : Plug)
     (hnp : NamesPlain (Registry.loadAll ss).1) (h : (processAll (Registry.loadAll ss).1 opts plug).errors = []) :
     WFForest (processAll (Registry.loadAll ss).1 opts plug).forest :=
   process_clean_wfForest _ opts plug (loadedShape_loadAll ss) hnp h
+
+/-- … and for texts loaded through `Model.loadTexts` (`Modules.Parse`). -/
+theorem wfForest_processAll_loadTexts (texts : List (List UInt8 × List UInt8)) (opts : Opts) (plug : Plug)
+    (hnp : NamesPlain (loadTexts texts).1) (h : (processAll (loadTexts texts).1 opts plug).errors = []) :
+    WFForest (processAll (loadTexts texts).1 opts plug).forest :=
+  process_clean_wfForest _ opts plug (loadedShape_loadTexts texts) hnp h
 
 /-- `NamesPlain` of a loaded registry is a property of the loaded statements. -/
 theorem namesPlain_loaded (ss : List Stmt) (h : ∀ s ∈ ss, stmtEvery nameStmtOK s = true) :
